@@ -7,6 +7,7 @@ package verifhook
 import (
 	"context"
 	"fmt"
+	"math/rand/v2"
 	"sort"
 	"sync"
 	"time"
@@ -33,6 +34,9 @@ var (
 	Stats  = map[int]*SiteStat{}
 	// RunDeviated lists sites that received a non-identity permutation in the current run.
 	RunDeviated = map[int]bool{}
+	// SiteSeeds, when non-nil, gives every site its own permutation seed for this run (0 = sorted order).
+	SiteSeeds map[int]uint32
+	siteExec  = map[int]int{}
 	// RunSeen maps every site executed in the current run to the largest map it saw.
 	RunSeen = map[int]int{}
 	// EventLog, if non-nil, receives one line per hook event of the current run.
@@ -54,6 +58,8 @@ func ResetRun(t *tape.Tape, active map[int]bool) {
 	Active = active
 	RunDeviated = map[int]bool{}
 	RunSeen = map[int]int{}
+	siteExec = map[int]int{}
+	SiteSeeds = nil
 }
 
 func less(a, b any) (bool, bool) {
@@ -104,10 +110,32 @@ func order[K comparable](site int, keys []K) []K {
 	if len(keys) > RunSeen[site] || RunSeen[site] == 0 {
 		RunSeen[site] = len(keys)
 	}
-	if T == nil || len(keys) < 2 || Masked[site] || (Active != nil && !Active[site]) {
+	if len(keys) < 2 || Masked[site] || (Active != nil && !Active[site]) {
 		return keys
 	}
-	p := T.Perm(len(keys), "maporder")
+	var p []int
+	if SiteSeeds != nil {
+		// every site has its own seed (fixed tape position): pinning one site to sorted order (seed 0) does not
+		// shift the choices of any other site, so shrinking isolates the sites that matter
+		seed := SiteSeeds[site]
+		if seed == 0 {
+			return keys
+		}
+		siteExec[site]++
+		r := rand.New(rand.NewPCG(uint64(seed), uint64(site)<<20|uint64(siteExec[site])))
+		p = make([]int, len(keys))
+		for i := range p {
+			p[i] = i
+		}
+		for i := 0; i < len(p)-1; i++ {
+			j := i + r.IntN(len(p)-i)
+			p[i], p[j] = p[j], p[i]
+		}
+	} else if T != nil {
+		p = T.Perm(len(keys), "maporder")
+	} else {
+		return keys
+	}
 	ident := true
 	for i, v := range p {
 		if i != v {
